@@ -1416,8 +1416,11 @@ fn replay_subject(a: &Args, tr: &mut Tracer, name: &str, idx: usize, behaviours:
         a.get_u64("stride_slow", 400) // zstd level 19: ~50 ms per put
     } else if name == "trie:memory" {
         10 // ~2 ms per put
-    } else if name.contains("dictzip") && name != "dictzip:small" {
-        a.get_u64("stride_dz", 4) // dictionary training per rebuilt store: a seeded quarter for the preset variants
+    } else if name.contains("dictzip") {
+        // dictionary training per rebuilt store: a seeded half / sixth of the behaviours
+        if name == "dictzip:small" { 2 } else { a.get_u64("stride_dz", 6) }
+    } else if name == "stack:zstd_zstd_mem" || name == "trie:security" {
+        3
     } else {
         1
     };
@@ -1433,6 +1436,7 @@ fn replay_subject(a: &Args, tr: &mut Tracer, name: &str, idx: usize, behaviours:
     let (mut executed, mut mism, mut written, mut unsupported) = (0usize, 0usize, 0usize, 0usize);
     let reuse = name.contains("dictzip") || name.contains("dict:trained") || name.contains("dict_zstd");
     let mut pool: Option<Box<dyn Store>> = None;
+    let mut nb = idx; // staggered per subject
     for (bi, b) in behaviours.iter().enumerate() {
         if stride > 1 && (bi as u64 + idx as u64) % stride != 0 {
             continue;
@@ -1441,9 +1445,10 @@ fn replay_subject(a: &Args, tr: &mut Tracer, name: &str, idx: usize, behaviours:
             Some(x) => x,
             None => continue,
         };
+        nb += 1; // index among the behaviours this subject executes
         for (ci, conc) in concs.iter().enumerate() {
             // the 64 KiB concretisation on a seeded tenth of the behaviours
-            if (*conc == "big" || (rare_empty && *conc == "tiny")) && (bi + idx) % (if rare_empty && name != "dictzip:small" { 30 } else { 10 }) != 0 {
+            if (*conc == "big" || (rare_empty && *conc == "tiny")) && nb % (if rare_empty { 30 } else { 10 }) != 0 {
                 continue;
             }
             // subjects with an expensive constructor (dictionary training) are reused across behaviours:
